@@ -344,6 +344,11 @@ class Mode(LogMixin):
         self.active = False
         self.stopping = False
 
+        # the mode has stopped: delays added while it was stopping must not fire anymore. the remaining cleanup
+        # (_finish_stop) only runs once the mode_<name>_stopped event has been processed, which is after timers
+        # which are already due in this loop iteration
+        self.delay.clear()
+
         for item in self.stop_methods:
             item[0](item[1])
 
